@@ -741,6 +741,7 @@ func (w *world) checkCrashImage(cp *crashPoint, mode int, outcome []map[int]bool
 	}
 	w.r.Steps++
 	w.r.Fault("crash." + crashModeName[mode])
+	w.r.Probe("crash." + crashModeName[mode])
 	if os.Getenv("VERIF_DEBUG") != "" {
 		fmt.Printf("DBG point k=%d kind=%s step=%d mode=%s sig=%s files=%s\n", cp.k, cp.kind, cp.step, crashModeName[mode], sig, diskListing(fs))
 	}
@@ -751,7 +752,7 @@ func (w *world) checkCrashImage(cp *crashPoint, mode int, outcome []map[int]bool
 	}
 	w.crashSeen[sig] = struct{}{}
 	w.crashChecked[mode]++
-	w.r.Probe("crash." + crashModeName[mode])
+	w.r.Probe("crash_images_reopened")
 	where := fmt.Sprintf("crash before file-system call #%d (%s) of step %d, mode %s", cp.k, cp.kind, cp.step, crashModeName[mode])
 	eng, err := w.openOn(fs, false)
 	if err != nil {
